@@ -161,6 +161,7 @@ def build(cls, rnd, radios):
 
 
 class C17(Check):
+    env_warnings_as_errors = True
     pid = "C17"
     level = "exploration"
     has_clock = True
